@@ -387,6 +387,29 @@ def check_frames_seq(rec, out: Out):
     six_list("app.translate_frames(allow_rc)", lambda: api.app.translate_frames(s, moltype="dna", gc=code, allow_rc=True), want6)
     six_list("app.translate_frames", lambda: api.app.translate_frames(s, moltype="dna", gc=code), plus)
 
+    # genetic-code and moltype functions handed sequence OBJECTS instead of strings
+    st, oseq = call(lambda: api.old_seq(s, "dna"))
+    if st == "ok":
+        st, got = call(lambda: str(api.old_mt["dna"].rc(oseq)))
+        out.count("old-moltype")
+        if st != "ok" or got != want_rc:
+            out.fail("Frames:old-moltype:rc[old-seq]", rec, "old-moltype", want_rc, got, f"DNA.rc(sequence object {s})")
+        for k in range(3):
+            st, got = call(lambda: o.translate(oseq, k))
+            _frame_cmp(rec, out, "old-gc.translate[old-seq]", "plus", k, plus[k], may[k], st, got)
+            st, got = call(lambda: o.translate(api.old_mt["dna"].rc(oseq), k))
+            _frame_cmp(rec, out, "old-gc.translate[moltype.rc(old-seq)]", "minus", k, minus[k], may[k], st, got)
+    st, nseq = call(lambda: api.new_seq(s, "dna"))
+    if st == "ok" and s:
+        import numpy
+
+        n = api.ngc(code)
+        for k in range(3):
+            st, got = call(lambda: n.translate(numpy.array(nseq), k))
+            _frame_cmp(rec, out, "new-gc.translate[ndarray of new-seq]", "plus", k, plus[k], may[k], st, got)
+            st, got = call(lambda: n.translate(numpy.array(nseq.rc()), k))
+            _frame_cmp(rec, out, "new-gc.translate[ndarray of new-seq.rc()]", "minus", k, minus[k], may[k], st, got)
+
     # sequence objects: seq.rc(), and frames by slicing the (reverse-complemented) view
     kw = dict(gc=code, include_stop=True, trim_stop=False, incomplete_ok=True)
     for entry, mk, mt in (
@@ -842,8 +865,51 @@ def check_rc_str(rec, out: Out):
         cmp(entry, "rc-rc", rc_rc, lambda: m.rc(m.rc(s)))
         cmp(entry, "complement-of-rc", rc_comp, lambda: m.complement(m.rc(s)))
         cmp(entry, "rc-of-complement", comp_rc, lambda: m.rc(m.complement(s)))
-    if not s or len(s) > 2:
-        return  # sequence objects: strings of length 1 and 2 (every symbol, every adjacent pair)
+    # ---- the argument in every representation the moltype functions accept
+    byrepr = rec["ret"]["byrepr"]
+    om, nm_ = api.old_mt[mt], api.new_mt[mt]
+    objects = bool(s) and len(s) <= 2  # sequence objects: strings of length 1 and 2
+
+    def text(v):
+        if isinstance(v, (list, tuple)):
+            return "".join(v)
+        if isinstance(v, bytes):
+            return v.decode("utf8")
+        if type(v).__name__ == "ndarray":
+            return "".join(nm_.degen_gapped_alphabet.from_indices(v))
+        return str(v)
+
+    makers = {
+        ("old-moltype", "str"): lambda: s,
+        ("old-moltype", "list"): lambda: list(s),
+        ("old-moltype", "tuple"): lambda: tuple(s),
+        ("new-moltype", "str"): lambda: s,
+        ("new-moltype", "bytes"): lambda: s.encode("utf8"),
+        ("new-moltype", "ndarray"): lambda: nm_.degen_gapped_alphabet.to_indices(s),
+    }
+    if objects:
+        makers[("old-moltype", "old-seq")] = lambda: api.cogent3.make_seq(s, name=NAME, moltype=mt)
+        makers[("old-moltype", "old-array-seq")] = lambda: om.make_array_seq(s, name=NAME)
+    for (entry, repr_), mk in makers.items():
+        m = om if entry == "old-moltype" else nm_
+        st, arg = call(mk)
+        if st != "ok":
+            out.fail(f"RcStr:{entry}:{mt}:construct[{repr_}]:{cls}", rec, entry, s, arg)
+            continue
+        want = byrepr[repr_]
+        for obsname, w, f in (("complement", J(want["comp"]), lambda: m.complement(arg)), ("rc", J(want["rc"]), lambda: m.rc(arg))):
+            st, got = call(lambda: text(f()))
+            out.count(entry)
+            if st != "ok" or got != w:
+                out.fail(f"RcStr:{entry}:{mt}:{obsname}[{repr_}]:{cls}", rec, entry, w, got, f"{obsname}({repr_} {s!r}) for {mt}")
+        if repr_ in ("list", "tuple", "old-seq", "old-array-seq", "bytes"):
+            # the documented "same type as the input"
+            st, got = call(lambda: type(m.rc(arg)) is type(arg))
+            out.count(entry)
+            if st != "ok" or got is not True:
+                out.fail(f"RcStr:{entry}:{mt}:rc-result-type[{repr_}]:{cls}", rec, entry, type(arg).__name__, got)
+    if not objects:
+        return
     st, seq = call(lambda: api.cogent3.make_seq(s, name=NAME, moltype=mt))
     if st != "ok":
         out.fail(f"RcStr:old-seq:{mt}:construct:{cls}", rec, "old-seq", s, seq)
